@@ -27,6 +27,9 @@ func init() {
 func runC20(c *Check) {
 	LostReceiverStores(c, "C20.CFG", "components/delay", "components/metrics", "message")
 	DefaultsApplied(c, "C20.CFG", "components/delay", "components/metrics", "message")
+	for _, rel := range []string{"components/delay", "components/metrics"} {
+		OptionalHooksGuarded(c, "C20.CFG", rel)
+	}
 	c20Wrappers(c, "C20")
 	c20SubscriberPump(c, "C20")
 	c07Decorator(c, "C20")
